@@ -435,7 +435,12 @@ def add_features(frng, problem, matrix, feats, tight=False):
                     r = {'location': {'index': frng.choice([start_loc, start_loc, frng.below(n)])}, 'duration': frng.choice([0, 1, 2, 5])}
                     if frng.chance(1, 4):
                         a = e1 + frng.range(0, 150)
-                        r['times'] = [[rfc(a), rfc(a + frng.range(60, 500))]]
+                        w = frng.range(60, 500)
+                        if sh.get('end'):
+                            # validation E1304: every reload window has to intersect the shift time (reported by c07: a tight
+                            # shift could end before the window opened and the reader rejected the problem)
+                            a = min(a, secs(sh['end']['latest']))
+                        r['times'] = [[rfc(a), rfc(a + w)]]
                     if frng.chance(1, 3):
                         r['tag'] = 'rl%d' % (k + 1)
                     rl.append(r)
@@ -1069,6 +1074,175 @@ def gen_relation_cases(rng, n, per_problem=2):
                 c['meta'] = q['meta']
                 cases.append(c)
     return cases
+
+
+def gen_ring_cases(rng, n, trace=0):
+    """n harness cases of the RING family (seeded change C02-4: permutation validator looking only at the two indices next to the
+    pickup / delivery boundary; used by the repair step after the LKH operator re-sequenced a tour by distance): one job with THREE
+    pickups and TWO deliveries on the corners of a hexagon whose first corner is the depot, pickups and deliveries alternating
+    around the ring (graph metric of the cycle), so that the distance-optimal round trip p, d, p, d, p is illegal and every legal
+    order (all pickups first) is longer; sometimes a few plain jobs elsewhere on the ring; MANY generations (the LKH operator
+    has to be drawn), deterministic thread layout"""
+    cases = []
+    while len(cases) < n:
+        L = rng.choice([5, 10, 20, 30])
+        m = 6
+        ring = [[L * min(abs(i - j), m - abs(i - j)) for j in range(m)] for i in range(m)]
+        order = [1, 2, 3, 4, 5] if rng.chance(1, 2) else [5, 4, 3, 2, 1]      # walking direction
+        dur = rng.choice([0, 0, 3, 10])
+        q = rng.range(1, 3)
+
+        def task(corner, tag, demand):
+            return {'places': [{'location': {'index': corner}, 'duration': dur, 'tag': tag}], 'demand': [demand]}
+        job = {'id': 'ring1', 'pickups': [task(order[0], 'p1', 2 * q), task(order[2], 'p2', 2 * q), task(order[4], 'p3', 2 * q)],
+               'deliveries': [task(order[1], 'd1', 3 * q), task(order[3], 'd2', 3 * q)]}
+        jobs = [job]
+        for x in range(rng.choice([0, 0, 1, 2])):
+            jobs.append({'id': 'x%d' % (x + 1), 'services': [{'places': [{'location': {'index': rng.range(1, 5)}, 'duration': 1}]}]})
+        v = {'typeId': 'v1', 'vehicleIds': ['v1_1'], 'profile': {'matrix': 'car'},
+             'costs': {'fixed': rng.choice([0, 10]), 'distance': 1, 'time': 0},
+             'shifts': [{'start': {'earliest': rfc(0), 'location': {'index': 0}},
+                         'end': {'latest': rfc(100000), 'location': {'index': 0}}}], 'capacity': [6 * q + rng.range(0, 3)]}
+        p = {'problem': {'plan': {'jobs': jobs}, 'fleet': {'vehicles': [v], 'profiles': [{'name': 'car'}]}},
+             'matrices': [{'profile': 'car', 'travelTimes': [x for r in ring for x in r], 'distances': [x for r in ring for x in r]}],
+             'meta': {'n': m, 'metric': True, 'tight': False, 'njobs': len(jobs), 'features': ['ring']}}
+        cfg = {'max_generations': rng.range(200, 400), 'parallelism': None, 'quota_after_polls': None, 'seed': rng.below(1000),
+               'outer_threads': 1}
+        if trace:
+            cfg['trace'] = trace
+        c = solve_case(p, cfg)
+        c['meta'] = p['meta']
+        cases.append(c)
+    return cases
+
+
+def gen_cluster_relation_cases(rng, n, trace=0):
+    """n harness cases with VICINITY CLUSTERING + a RELATION (+ mostly the optional `filtering` block) in one plan (seeded change
+    C02-3: clustering_reader.rs get_filter_policy forgetting the relation jobs when `filtering` is present, so that a locked job
+    is also swallowed by a cluster and served twice): 4-6 single deliveries in close pairs (within the clustering threshold),
+    the relation names one job of a pair.  The returned documents carry commute / parking data when a cluster was formed: they
+    are `unsupported` for the Coq rendering and judged by the accounting twin (e2e.py_accounting) alone"""
+    cases = []
+    while len(cases) < n:
+        pairs = rng.choice([2, 2, 3])
+        m = 1 + 2 * pairs
+        near, far = rng.choice([1, 2, 5]), rng.choice([40, 60, 100])
+
+        def d(i, j):
+            if i == j:
+                return 0
+            return near if i and j and (i - 1) // 2 == (j - 1) // 2 else far + abs(i - j)
+        mat = [d(i, j) for i in range(m) for j in range(m)]
+        jobs = [{'id': 'j%d' % k, 'deliveries': [{'places': [{'location': {'index': k}, 'duration': rng.choice([5, 10, 60])}],
+                                                 'demand': [1]}]} for k in range(1, m)]
+        rel = {'type': rng.choice(['any', 'sequence', 'strict']), 'vehicleId': 'v1_1',
+               'jobs': (['departure'] if rng.chance(1, 2) else []) + ['j1']}
+        clustering = {'type': 'vicinity', 'profile': {'matrix': 'car'}, 'threshold': {'duration': 10, 'distance': 10},
+                      'visiting': rng.choice(['continue', 'return']), 'serving': {'type': 'original', 'parking': 0}}
+        if rng.chance(3, 4):
+            clustering['filtering'] = {'excludeJobIds': rng.choice([[], ['j3'], ['j%d' % (m - 1)]])}
+        v = {'typeId': 'v1', 'vehicleIds': ['v1_1', 'v1_2'], 'profile': {'matrix': 'car'},
+             'costs': {'fixed': 10, 'distance': 1, 'time': 1},
+             'shifts': [{'start': {'earliest': rfc(0), 'location': {'index': 0}},
+                         'end': {'latest': rfc(40000), 'location': {'index': 0}}}], 'capacity': [10]}
+        p = {'problem': {'plan': {'jobs': jobs, 'relations': [rel], 'clustering': clustering},
+                         'fleet': {'vehicles': [v], 'profiles': [{'name': 'car'}]}},
+             'matrices': [{'profile': 'car', 'travelTimes': mat, 'distances': mat}],
+             'meta': {'n': m, 'metric': False, 'tight': False, 'njobs': len(jobs), 'features': ['clustering', 'relations']}}
+        cfg = {'max_generations': rng.choice([1, 3, 10, 40]), 'parallelism': None, 'quota_after_polls': None,
+               'seed': rng.below(1000), 'outer_threads': 1}
+        if trace:
+            cfg['trace'] = trace
+        c = solve_case(p, cfg)
+        c['meta'] = p['meta']
+        cases.append(c)
+    return cases
+
+
+def renumber_locations(problem, matrices):
+    """after a problem was cut down: validation E1504 wants the matrix size to equal the number of DISTINCT locations used"""
+    n = matrix_size(matrices[0])
+    used = sorted(set(used_locations(problem)))
+    if len(used) == n:
+        return
+    ren = {l: k for k, l in enumerate(used)}
+    for loc in location_refs(problem):
+        loc['index'] = ren[loc['index']]
+    for m in matrices:
+        for key in ('travelTimes', 'distances', 'errorCodes'):
+            if m.get(key):
+                m[key] = [m[key][i * n + j] for i in used for j in used]
+
+
+def two_shift_tweak(rng):
+    """base problem -> ONE vehicle with TWO shifts that are both needed (a short first shift, a long second one), no breaks /
+    reloads: relations derived from its solution then share the vehicleId and differ in shiftIndex (seeded change C01-3:
+    job_reader.rs read_locks grouping relations by vehicle only)"""
+    def tweak(p):
+        fleet = p['problem']['fleet']
+        v = fleet['vehicles'][0]
+        fleet['vehicles'] = [v]
+        v['vehicleIds'] = v['vehicleIds'][:1]
+        sh = v['shifts'][0]
+        for key in ('breaks', 'reloads'):
+            sh.pop(key, None)
+        sh['start'].pop('latest', None)
+        e1 = secs(sh['start']['earliest'])
+        loc = sh['start']['location']['index']
+        end1 = e1 + rng.range(60, 160)
+        sh['end'] = {'latest': rfc(end1), 'location': {'index': loc}}
+        e2 = end1 + rng.range(1, 60)
+        v['shifts'] = [sh, {'start': {'earliest': rfc(e2), 'location': {'index': loc}},
+                            'end': {'latest': rfc(e2 + rng.range(300, 700)), 'location': {'index': loc}}}]
+        v['capacity'] = [max(v['capacity'][0], 6)] + list(v['capacity'][1:])
+        renumber_locations(p['problem'], p['matrices'])
+        return p
+    return tweak
+
+
+def gen_two_shift_relation_cases(rng, n, per_problem=2):
+    """n harness cases (C01) whose plan has relations for BOTH shifts of one vehicle where the solver used both"""
+    probs = [q for q in gen_relation_problems(rng, 3 * (n // per_problem + 1), tweak=two_shift_tweak(rng))
+             if len({(r['vehicleId'], r.get('shiftIndex') or 0) for r in q['problem']['plan']['relations']}) >= 2]
+    cases = []
+    for q in probs:
+        for _ in range(per_problem):
+            if len(cases) < n:
+                c = solve_case(q, gen_config(rng))
+                c['meta'] = q['meta']
+                cases.append(c)
+    return cases
+
+
+def gen_relation_problems(rng, n, solver=None, tries=4, tweak=None, derive=None):
+    """n problems WITH `plan.relations` derived from a solution of the same problem (the first phase of gen_relation_cases, whose
+    random stream is left alone).  `solver` runs a list of harness solve cases and returns their results (default: solve_batch,
+    binary `solve`; C12 passes its own binary, the only one its check builds); `tweak(p)` may reshape a base problem before it is
+    solved, `derive(rng, p, s)` replaces derive_relations"""
+    solver = solver or solve_batch
+    derive = derive or derive_relations
+    out = []
+    for _ in range(tries):
+        if len(out) >= n:
+            break
+        probs = []
+        for _ in range(max(4, n - len(out) + 3)):
+            feats = tuple(f for f in REL_FEATURES if rng.chance(1, 3))
+            p = gen_checked_problem(rng, metric=True, limits=False, features=feats)
+            probs.append(tweak(p) if tweak else p)
+        first = [solve_case(p, {'max_generations': rng.range(3, 12), 'parallelism': None, 'quota_after_polls': None,
+                                'seed': rng.below(1000), 'outer_threads': 1}) for p in probs]
+        for p, r in zip(probs, solver(first)):
+            if len(out) >= n:
+                break
+            if outcome(r) != 'solution' or unsupported(p, r['solution']):
+                continue
+            rels = derive(rng, p, r['solution'])
+            if rels:
+                out.append({'problem': dict(p['problem'], plan=dict(p['problem']['plan'], relations=rels)),
+                            'matrices': p['matrices'],
+                            'meta': dict(p['meta'], features=list(p['meta']['features']) + ['relations'])})
+    return out
 
 
 def g_relations(p, ids=None):
